@@ -98,7 +98,7 @@ func init() {
 	core.Register(&core.Prop{
 		ID: "C03",
 		Rule: "complete cross product: 33 field types (string, bool, all int/uint widths, floats, slices nil/empty/populated, arrays incl. [0]T, maps, struct value, *struct, **struct, pointers to scalars, slices/maps of structs) x their emptiness states x every rule applicable to the kind as 'R', 'required,R', 'R,required' and 'required' alone x entry points {struct tag, struct RM, struct field between time.Time / string / integer neighbours, Var, map[string]T, map[string]interface{}, []map, Url} " +
-			"+ map/URL key absent / present-empty / present-non-empty / duplicated; verdict compared with the reference (required iff empty; no clause from any other rule on an empty value). distinct = distinct (type, state, rule text, entry point), all enumerated; non-trivial = value empty or rule list contains required",
+			"+ map/URL key absent / present-empty / present-non-empty / duplicated / given without an equals sign / next to empty pieces (?&k=v, a=1&&k=v, k=v&); verdict compared with the reference (required iff empty; no clause from any other rule on an empty value). distinct = distinct (type, state, rule text, entry point), all enumerated; non-trivial = value empty or rule list contains required",
 		Exhaustive: func(t core.Tier) bool { return true },
 		Shards:     func(t core.Tier) int { return 8 },
 		Run:        runC03,
@@ -168,7 +168,7 @@ func runC03(c *core.Ctx) {
 	// ---- keys absent / empty / duplicated for map and URL inputs
 	k := 0
 	for _, text := range []string{"required", "required|m_req", "required,to=1~3|m_r", "to=1~3|m_r,required|必_req", "phone|m_r", "to=2~3"} {
-		for _, shape := range []string{"absent", "empty", "nonempty", "dup-empty-first", "dup-empty-last", "absent-among-others", "no-query", "bare-after-value", "bare-only", "nil-map", "raw-equals-in-value"} {
+		for _, shape := range []string{"absent", "empty", "nonempty", "dup-empty-first", "dup-empty-last", "absent-among-others", "no-query", "bare-after-value", "bare-only", "nil-map", "raw-equals-in-value", "amp-leading", "amp-double-before", "amp-double-after", "amp-trailing"} {
 			for _, keyName := range []string{"a", "ids[]", "姓名", "first name", "a+b"} {
 				k++
 				if !c.Mine(k) {
@@ -343,6 +343,14 @@ func c03Absent(res *core.Result, text, shape, keyName string) {
 		params = []kv{{"b", "abcd"}, {keyName, "\x00bare"}}
 	case "bare-only":
 		params = []kv{{keyName, "\x00bare"}}
+	case "amp-leading": // "?&<key>=ab": empty pieces between separators are no parameters and end nothing
+		params = []kv{{"\x00emptypair", ""}, {keyName, "ab"}}
+	case "amp-double-before":
+		params = []kv{{"b", "x"}, {"\x00emptypair", ""}, {keyName, "ab"}}
+	case "amp-double-after":
+		params = []kv{{keyName, ""}, {"\x00emptypair", ""}, {"\x00emptypair", ""}, {"b", "x"}}
+	case "amp-trailing":
+		params = []kv{{keyName, "abcd"}, {"\x00emptypair", ""}}
 	case "nil-map":
 		params = nil // the map input is a nil map: every key is missing
 	case "raw-equals-in-value":
@@ -359,6 +367,10 @@ func c03Absent(res *core.Result, text, shape, keyName string) {
 		q := []string{}
 		entries := []ref.FlatEntry{}
 		for _, p := range params {
+			if p.k == "\x00emptypair" {
+				q = append(q, "")
+				continue
+			}
 			if p.v == "\x00bare" {
 				q = append(q, url.QueryEscape(p.k))
 				entries = append(entries, ref.FlatEntry{Key: p.k, Val: reflect.ValueOf("")})
@@ -386,7 +398,7 @@ func c03Absent(res *core.Result, text, shape, keyName string) {
 		}
 	}
 	// map (no duplicates in a map)
-	if !strings.HasPrefix(shape, "dup") && shape != "no-query" && !strings.HasPrefix(shape, "bare") && shape != "raw-equals-in-value" {
+	if !strings.HasPrefix(shape, "dup") && shape != "no-query" && !strings.HasPrefix(shape, "bare") && !strings.HasPrefix(shape, "amp-") && shape != "raw-equals-in-value" {
 		m := map[string]string{}
 		if shape == "nil-map" {
 			m = nil
